@@ -37,7 +37,7 @@ def required_cells(tier):
 
 
 def cases(tier, seed):
-    n = 70 if tier == "quick" else 600
+    n = 140 if tier == "quick" else 900
     return [{"kind": "gibbs", "seed": seed, "idx": i, "tier": tier}
             for i in range(n)]
 
